@@ -229,8 +229,13 @@ def main():
   nviol = 0
   os.makedirs(os.path.join(VERIF, "replays", prop), exist_ok=True)
   for s, r in executed:
-    if r.get("error") or r.get("nondeterministic"):
+    if r.get("error"):
       continue
+    if r.get("nondeterministic"):
+      # the harness owns every source of nondeterminism (proved on the first scenario of every worker); a scenario whose two
+      # executions in the same process disagree means the implementation read memory it does not own or did not initialise
+      first = (r.get("violations") or (r.get("second") or {}).get("violations") or [{}])[0]
+      r["violations"] = [dict(vkey="nondeterministic:" + str(first.get("vkey", "result")), what="two executions of the same scenario in one process disagree: " + str(first.get("what", ""))[:300])]
     unknown = []
     for v in r.get("violations", []):
       f = match_known(known, v.get("vkey", ""))
@@ -319,11 +324,9 @@ def main():
     print(r.get("traceback", ""))
     print("scenario:", json.dumps(s)[:600])
     sys.exit(2)
-  if nondet and not getattr(drv, "NONDET_IS_VIOLATION", False):
+  if nondet:
     s, r = nondet[0]
-    print("NONDETERMINISM: same scenario, two runs, different observations:", json.dumps(s)[:600])
-    print("  first:", str(r.get("violations"))[:500], "\n  second:", str(r.get("second"))[:500])
-    sys.exit(2)
+    print("NONDETERMINISM (reported as violation): same scenario, two runs, different observations:", json.dumps(s)[:400])
   sys.exit(1 if nviol else 0)
 
 
